@@ -7,9 +7,9 @@ import RedisVerif.Model.ShardsClock
     NEW <N> <fixed01> <n> (<key> <rs|-> <rb>)*     → ok     (rs = `-`: key is not UTF-8, byte paths only)
     <CMD> args…                                     → canonical reply
     DUMP <fast01>                                   → aggregate dump taken through the public API
-    TNEW <N> <carries01> <n> (<key> <rs|-> <rb>)*   → ok     timed stream (per-shard clocks, expiry); carries =
-                                                             the fast messages carry the virtual time
-    T <now-ms> SET|SETPX|GET|EXISTS|DBSIZE|FGET|PGET|FSET|PSET args…  → canonical reply
+    TNEW <N> <carries: 7 × 0/1> <n> (<key> <rs|-> <rb>)*   → ok   timed stream (per-shard clocks, expiry);
+          carries = which message kinds (generic fastGet fastSet pooledGet pooledSet batchGet batchSet) carry the time
+    T <now-ms> SET|SETPX|SETEX|GET|EXISTS|DBSIZE|FGET|PGET|FSET|PSET|BGET|BSET|MGET|MSET args…  → canonical reply
 -/
 namespace RedisVerif.Driver.C03
 open RedisVerif RedisVerif.Driver RedisVerif.Shards RedisVerif.Shards.Str
@@ -22,7 +22,7 @@ structure DState where
   utf8 : NSet
   /-- timed streams: per-shard stores with deadlines and clocks -/
   tst : List Clock.TShard := []
-  carries : Bool := true
+  carries : Clock.Carries := Clock.allCarry
 
 def DState.init : DState := { R := Routes.ofTable 1 [], fixed := true, st := [[]], utf8 := [] }
 
@@ -108,29 +108,55 @@ def parseNew : P (Nat × Bool × List (Nat × Option Nat × Nat)) := do
   let tbl ← repeatP m (do let k ← strKey; let rs ← optNat; let rb ← nat; pure (k, rs, rb))
   pure (n, f != 0, tbl)
 
-def parseT : P (Nat × Clock.TCmd) := do
+/-- a timed op and how its replies are printed (`true`: one reply, `false`: `m:[…]`) -/
+def parseT : P (Nat × Clock.TCmd × Nat) := do
   expect "T"
   let now ← nat
   let t ← tok
+  let keyOp (kind : Clock.Kind) (op : Clock.KOp) : P (Nat × Clock.TCmd × Nat) := do
+    let k ← strKey; pure (now, .key kind k op, 0)
+  let keyVal (kind : Clock.Kind) : P (Nat × Clock.TCmd × Nat) := do
+    let k ← strKey; let v ← bytesTok; pure (now, .key kind k (.set v), 0)
+  let gets (kind : Clock.Kind) : P (Nat × Clock.TCmd × Nat) := do
+    let n ← nat; let ks ← repeatP n strKey
+    pure (now, .batch kind (ks.map (fun k => (k, Clock.KOp.get))), 1)
+  let sets (kind : Clock.Kind) (mode : Nat) : P (Nat × Clock.TCmd × Nat) := do
+    let n ← nat; let l ← kvs n
+    pure (now, .batch kind (l.map (fun kv => (kv.1, Clock.KOp.set kv.2))), mode)
   match t with
-  | "SET" => do let k ← strKey; let v ← bytesTok; pure (now, .set k v)
-  | "SETPX" => do let k ← strKey; let v ← bytesTok; let ms ← nat; pure (now, .setPx k v ms)
-  | "GET" => do let k ← strKey; pure (now, .get k)
-  | "EXISTS" => do let k ← strKey; pure (now, .exists k)
-  | "DBSIZE" => pure (now, .dbsize)
-  | "FGET" => do let k ← strKey; pure (now, .fastGet k)
-  | "PGET" => do let k ← strKey; pure (now, .fastGet k)
-  | "FSET" => do let k ← strKey; let v ← bytesTok; pure (now, .fastSet k v)
-  | "PSET" => do let k ← strKey; let v ← bytesTok; pure (now, .fastSet k v)
+  | "SET" => keyVal .generic
+  | "SETPX" => do let k ← strKey; let v ← bytesTok; let ms ← nat; pure (now, .key .generic k (.setPx v ms), 0)
+  | "SETEX" => do let k ← strKey; let v ← bytesTok; let sc ← nat; pure (now, .key .generic k (.setEx v sc), 0)
+  | "GET" => keyOp .generic .get
+  | "EXISTS" => keyOp .generic .exists
+  | "DBSIZE" => pure (now, .dbsize, 0)
+  | "FGET" => keyOp .fastGet .get
+  | "PGET" => keyOp .pooledGet .get
+  | "FSET" => keyVal .fastSet
+  | "PSET" => keyVal .pooledSet
+  | "BGET" => gets .batchGet
+  | "MGET" => gets .generic
+  | "BSET" => sets .batchSet 1
+  | "MSET" => sets .generic 2
   | _ => failure
 
-def parseTNew : P (Nat × Bool × List (Nat × Option Nat × Nat)) := do
+/-- `generic fastGet fastSet pooledGet pooledSet batchGet batchSet` as a string of 0/1 -/
+def parseCarries (t : String) : Option Clock.Carries :=
+  match t.toList.map (· == '1') with
+  | [a, b, c, d, e, f, g] => some (fun k => match k with
+      | .generic => a | .fastGet => b | .fastSet => c | .pooledGet => d | .pooledSet => e
+      | .batchGet => f | .batchSet => g)
+  | _ => none
+
+def parseTNew : P (Nat × Clock.Carries × List (Nat × Option Nat × Nat)) := do
   expect "TNEW"
   let n ← nat
-  let f ← nat
+  let f ← tok
   let m ← nat
   let tbl ← repeatP m (do let k ← strKey; let rs ← optNat; let rb ← nat; pure (k, rs, rb))
-  pure (n, f != 0, tbl)
+  match parseCarries f with
+  | some c => pure (n, c, tbl)
+  | none => failure
 
 def dedupSorted : List Nat → List Nat
   | [] => []
@@ -167,9 +193,13 @@ def step (d : DState) (line : String) : DState × String :=
     | none => (d, "bad-op")
   | "T" :: _ =>
     match runP parseT line with
-    | some (now, c) =>
+    | some (now, c, mode) =>
       let r := Clock.execNT d.R d.carries now d.tst c
-      ({ d with tst := r.1 }, showR1 r.2)
+      let shown := match mode, r.2 with
+        | 0, [x] => showR1 x
+        | 2, _ => "ok"
+        | _, l => "m:[" ++ ",".intercalate (l.map showR1) ++ "]"
+      ({ d with tst := r.1 }, shown)
     | none => (d, "bad-op")
   | _ =>
     match runP parseCmd line with
